@@ -276,6 +276,83 @@ theorem solo_clean (maxQ last now : Int) (q : Req) :
       · have h3 : ¬ last + iv < now := by omega
         simp [Cfg.start, Cfg.runSched, Cfg.round, Cfg.run, Cfg.sched, Th.init, Th.isDone, Th.isRb, rbCount, stepTh, List.range, List.range.loop, h1, h2, h3]
 
+/-! ## several rules on one resource; reloading -/
+
+/-- what C10 demands of one walk over the rules `(maxQ, lastPassedTime, class)`, arrival `now`: every visited rule answers
+    as the property wants for *its own* timestamp and limit (spacing, wait bound, justified rejection), a wait moves the
+    arrival at the next rule, a rejection ends the walk -/
+def ChainOk : Int → List (Int × Int × Req) → List Int → List Res → Prop
+  | _, [], [], [] => True
+  | now, (_, last, .zero) :: cs, l' :: ls, .pass :: rs => l' = last ∧ ChainOk now cs ls rs
+  | _, (_, last, .excess) :: cs, l' :: ls, [.block] => l' = last ∧ ls = cs.map (·.2.1)
+  | now, (_, last, .norm iv) :: cs, l' :: ls, .pass :: rs => last + iv ≤ now ∧ l' = now ∧ ChainOk now cs ls rs
+  | now, (maxQ, last, .norm iv) :: cs, l' :: ls, .wait w :: rs =>
+    0 < w ∧ w ≤ maxQ ∧ last + iv ≤ now + w ∧ l' = now + w ∧ ChainOk (now + w) cs ls rs
+  | now, (maxQ, last, .norm iv) :: cs, l' :: ls, [.block] => last + iv - now > maxQ ∧ l' = last ∧ ls = cs.map (·.2.1)
+  | _, _, _, _ => False
+
+/-- **Every rule of the resource is honoured**: the slot's walk satisfies `ChainOk` for any rule list and any state. -/
+theorem chain_ok (now : Int) (cs : List (Int × Int × Req)) : ChainOk now cs (chain now cs).1 (chain now cs).2 := by
+  induction cs generalizing now with
+  | nil => simp [chain, ChainOk]
+  | cons c r ih =>
+    obtain ⟨maxQ, last, q⟩ := c
+    cases q with
+    | zero => simpa [chain, doCheck, ChainOk] using ih now
+    | excess => simp [chain, doCheck, ChainOk]
+    | norm iv =>
+      rcases doCheck_norm maxQ last now iv with ⟨h1, he⟩ | ⟨h1, h2, he⟩ | ⟨h1, h2, he⟩
+      · simp only [chain, he, ChainOk]; exact ⟨h1, trivial, ih now⟩
+      · simp only [chain, he, ChainOk]; exact ⟨h2, trivial, trivial⟩
+      · simp only [chain, he, ChainOk]
+        refine ⟨by omega, by omega, by omega, by ring, ?_⟩
+        exact ih _
+
+/-- the controllers keep their positions (one timestamp per rule, also after a rejection half-way) -/
+theorem chain_length (now : Int) (cs : List (Int × Int × Req)) : (chain now cs).1.length = cs.length := by
+  induction cs generalizing now with
+  | nil => simp [chain]
+  | cons c r ih =>
+    obtain ⟨maxQ, last, q⟩ := c
+    unfold chain
+    split <;> simp [ih]
+
+/-- **Reload**: every controller in force afterwards was built for its rule or is an old controller whose rule the
+    code's equality accepts for it — in particular a rule whose limit, threshold or interval changed (equality false)
+    gets a fresh checker with the new parameters, it never keeps the old ones. -/
+theorem reload_sound {ρ : Type} (eq : ρ → ρ → Bool) (old : List (Ctl ρ)) (rules : List ρ) :
+    List.Forall₂ (fun c r => (c.rule = r ∧ c.last = 0) ∨ (c ∈ old ∧ eq c.rule r = true)) (reload eq old rules) rules := by
+  induction rules generalizing old with
+  | nil => simp [reload]
+  | cons r rs ih =>
+    have findEq_spec : ∀ (l : List (Ctl ρ)) (i : Nat), findEq eq r l = some i → ∃ c, l[i]? = some c ∧ eq c.rule r = true := by
+      intro l
+      induction l with
+      | nil => intro i h; simp [findEq] at h
+      | cons c cs ihl =>
+        intro i h
+        unfold findEq at h
+        by_cases hc : eq c.rule r = true
+        · simp only [hc, ↓reduceIte, Option.some.injEq] at h; subst h; exact ⟨c, by simp, hc⟩
+        · simp only [hc, Bool.false_eq_true, ↓reduceIte, Option.map_eq_some_iff] at h
+          obtain ⟨j, hj, rfl⟩ := h
+          obtain ⟨c', h1, h2⟩ := ihl j hj
+          exact ⟨c', by simpa using h1, h2⟩
+    unfold reload
+    split
+    · rename_i i hi
+      obtain ⟨c, hc, he⟩ := findEq_spec old i hi
+      simp only [hc]
+      refine List.Forall₂.cons (Or.inr ⟨List.mem_of_getElem? hc, he⟩) ?_
+      refine (ih (old.eraseIdx i)).imp ?_
+      intro c' r' h
+      rcases h with h | ⟨h1, h2⟩
+      · exact Or.inl h
+      · exact Or.inr ⟨List.mem_of_mem_eraseIdx h1, h2⟩
+    · exact List.Forall₂.cons (Or.inl ⟨rfl, rfl⟩) (ih old)
+
+example : chain 0 [(1000, 0, .norm 100), (0, 0, .norm 300)] = ([100, 0], [.wait 100, .block]) := by decide
+
 /-! ## the two known findings: the model (as the code) violates spacing under these schedules -/
 
 /-- X (clock 1000) and W (1000), Y and Z (1150); interval 100, limit 250, timestamp 1100 -/
